@@ -38,6 +38,9 @@ func checkC02(ctx *Ctx, r *Report) {
 	r.Floor("captured-error assignments in callbacks", 10)
 	c10NumberCanonical(ctx, r)
 	c01EnumNullMember(ctx, r)
+	c02EnumMemberIdentifiers(ctx, r)
+	c02JavaSerializerConditions(ctx, r)
+	c02GoUnfoldLeafPointer(ctx, r)
 	c02RuntimeGuard(ctx, r)
 	c02SortedSearch(ctx, r)
 	c02SortedSearchSelfTest(ctx, r)
@@ -2723,4 +2726,261 @@ func c02PythonClassNamesEscaped(ctx *Ctx, r *Report) {
 		})
 	}
 	r.Count("class names formatted outside formatObjectName in the Python jenny", n)
+}
+
+// c02EnumMemberIdentifiers: the name of an enum member is derived from its value by *removing* what the language does
+// not allow in an identifier; nothing can be left (`"="`), and two members can end up alike (`"<"` / `">"`, `"m"` /
+// `"M"` in Go). No formatter can report that (they return strings): the chain of every language that names enum members
+// ends with the EnumMemberIdentifiers pass — after every pass that creates enums or renames members — configured with
+// an Identifier function, and the pass fails on an identifier that is not one and on a duplicate.
+func c02EnumMemberIdentifiers(ctx *Ctx, r *Report) {
+	chains := languageChains(ctx)
+	before := []string{"DisjunctionOfConstantsToEnum", "AnonymousEnumToExplicitType", "PrefixEnumValues", "RenameNumericEnumValues", "SanitizeEnumMemberNames"}
+	n := 0
+	for _, lang := range []string{"golang", "java", "php", "python", "typescript"} {
+		chain, ok := chains[lang]
+		if !ok {
+			r.Undecided("anchor lost: CompilerPasses of %s", lang)
+			continue
+		}
+		at := -1
+		for i, name := range chain {
+			if name == "EnumMemberIdentifiers" {
+				at = i
+			}
+		}
+		late := ""
+		for i, name := range chain {
+			for _, b := range before {
+				if name == b && i > at {
+					late = name
+				}
+			}
+		}
+		n++
+		r.Check(at >= 0 && late == "", "chains/enum-member-identifiers", lang+" chain checks the identifiers of enum members", token.NoPos, "EnumMemberIdentifiers comes after every pass that creates enums or renames their members",
+			fmt.Sprintf("the %s chain does not end with the check of enum member identifiers (position %d, %s comes later): `\"=\" | \"!=\" | \"<\" | \">\"` gives `const (Op Op = \"=\"; Op Op = \"!=\" …)` in Go, `_ = \"=\"; _ = \"<\"` in Python, `=(\"=\")` in Java — a successful run and code that does not compile", lang, at, late))
+	}
+	// the literals give the pass an Identifier
+	ctx.AllFuncDecls(func(p *packages.Package, fd *ast.FuncDecl, obj *types.Func) {
+		if fd.Recv == nil || fd.Body == nil || obj.Name() != "CompilerPasses" || !strings.HasPrefix(p.PkgPath, modulePath+"/internal/jennies/") {
+			return
+		}
+		ast.Inspect(fd.Body, func(m ast.Node) bool {
+			cl, ok := m.(*ast.CompositeLit)
+			if !ok || namedName(p.TypesInfo.TypeOf(cl)) != "EnumMemberIdentifiers" {
+				return true
+			}
+			has := false
+			for _, el := range cl.Elts {
+				if kv, ok := el.(*ast.KeyValueExpr); ok {
+					if k, ok := kv.Key.(*ast.Ident); ok && k.Name == "Identifier" {
+						if id, ok := ast.Unparen(kv.Value).(*ast.Ident); !ok || id.Name != "nil" {
+							has = true
+						}
+					}
+				}
+			}
+			n++
+			r.Check(has, "chains/enum-member-identifiers", ctx.FuncName(obj)+" configures the check", cl.Pos(), "the pass is given the function that names members in that language",
+				ctx.FuncName(obj)+" adds EnumMemberIdentifiers without Identifier: the pass checks nothing")
+			return true
+		})
+	})
+	// the pass itself
+	cp := ctx.Pkg("internal/ast/compiler")
+	named := ctx.LookupType("internal/ast/compiler", "EnumMemberIdentifiers")
+	if cp == nil || named == nil {
+		r.Undecided("anchor lost: compiler.EnumMemberIdentifiers")
+		return
+	}
+	info := cp.TypesInfo
+	validity, distinct := false, false
+	for _, fd := range methodsOf(ctx, named) {
+		ast.Inspect(fd.Body, func(m ast.Node) bool {
+			is, ok := m.(*ast.IfStmt)
+			if !ok || len(is.Body.List) == 0 {
+				return true
+			}
+			ret, ok := is.Body.List[len(is.Body.List)-1].(*ast.ReturnStmt)
+			if !ok || len(ret.Results) == 0 {
+				return true
+			}
+			last := ast.Unparen(ret.Results[len(ret.Results)-1])
+			if id, ok := last.(*ast.Ident); ok && id.Name == "nil" {
+				return true
+			}
+			if tv, ok := info.Types[last]; !ok || !types.Identical(tv.Type, types.Universe.Lookup("error").Type()) {
+				return true
+			}
+			// an `if` that leaves with an error: what does it test?
+			if u, ok := ast.Unparen(is.Cond).(*ast.UnaryExpr); ok && u.Op == token.NOT {
+				if c, ok := ast.Unparen(u.X).(*ast.CallExpr); ok {
+					if f := callee(info, c); f != nil && f.Pkg() == cp.Types {
+						if hfd, _ := ctx.DeclOf(f); hfd != nil && hfd.Body != nil {
+							ast.Inspect(hfd.Body, func(k ast.Node) bool {
+								if c2, ok := k.(*ast.CallExpr); ok {
+									if f2 := callee(info, c2); f2 != nil && f2.Pkg() != nil && f2.Pkg().Path() == "unicode" {
+										validity = true
+									}
+								}
+								return true
+							})
+						}
+					}
+				}
+			}
+			if as, ok := is.Init.(*ast.AssignStmt); ok && len(as.Rhs) == 1 {
+				if ix, ok := ast.Unparen(as.Rhs[0]).(*ast.IndexExpr); ok {
+					if _, isMap := info.TypeOf(ix.X).Underlying().(*types.Map); isMap {
+						distinct = true
+					}
+				}
+			}
+			return true
+		})
+	}
+	n++
+	r.Check(validity && distinct, "chains/enum-member-identifiers", "compiler.EnumMemberIdentifiers fails on invalid and on duplicate identifiers", token.NoPos, "both tests leave with an error",
+		fmt.Sprintf("EnumMemberIdentifiers no longer fails on an identifier that is not one (%v) or on an identifier given twice (%v)", validity, distinct))
+	r.Count("clauses of the enum member identifier check", n)
+	r.Floor("clauses of the enum member identifier check", 11)
+}
+
+// c02JavaSerializerConditions: the Java classes are annotated `@JsonSerialize(using = XSerializer.class)` /
+// `@JsonDeserialize(using = XDeserializer.class)` by the type formatter, and the XSerializer / XDeserializer classes are
+// written by jennies registered under a condition on the configuration. Every configuration field that condition reads
+// is also read by the guard of the function that decides the annotation — otherwise there is a combination of flags
+// under which the annotation names a class that is not generated.
+func c02JavaSerializerConditions(ctx *Ctx, r *Report) {
+	p := ctx.Pkg("internal/jennies/java")
+	if p == nil {
+		r.Undecided("anchor lost: internal/jennies/java")
+		return
+	}
+	info := p.TypesInfo
+	configFields := func(e ast.Node) map[string]bool {
+		out := map[string]bool{}
+		ast.Inspect(e, func(m ast.Node) bool {
+			if sel, ok := m.(*ast.SelectorExpr); ok {
+				if f := fieldOf(info, sel); f != nil && namedName(info.TypeOf(sel.X)) == "Config" {
+					out[f.Name()] = true
+				}
+			}
+			return true
+		})
+		return out
+	}
+	// registration conditions
+	registered := map[string]map[string]bool{}
+	for _, f := range p.Syntax {
+		ast.Inspect(f, func(m ast.Node) bool {
+			c, ok := m.(*ast.CallExpr)
+			if !ok || len(c.Args) != 2 {
+				return true
+			}
+			if fn := callee(info, c); fn == nil || fn.Name() != "If" {
+				return true
+			}
+			name := namedName(info.TypeOf(c.Args[1]))
+			if name == "Serializers" || name == "Deserializers" {
+				registered[name] = configFields(c.Args[0])
+			}
+			return true
+		})
+	}
+	n := 0
+	for _, pair := range [][2]string{{"Serializers", "objectNeedsCustomSerializer"}, {"Deserializers", "objectNeedsCustomDeserializer"}} {
+		fields, ok := registered[pair[0]]
+		fd := c12Method(p, pair[1])
+		if !ok || fd == nil {
+			r.Undecided("anchor lost: registration of java.%s / java.typeFormatter.%s", pair[0], pair[1])
+			continue
+		}
+		// the guard: the leading `if … { return false }` statements
+		guard := map[string]bool{}
+		for _, st := range fd.Body.List {
+			is, ok := st.(*ast.IfStmt)
+			if !ok || len(is.Body.List) != 1 {
+				break
+			}
+			ret, ok := is.Body.List[0].(*ast.ReturnStmt)
+			if !ok || len(ret.Results) != 1 || exprString(ret.Results[0]) != "false" {
+				break
+			}
+			for k := range configFields(is.Cond) {
+				guard[k] = true
+			}
+		}
+		var missing []string
+		for k := range fields {
+			if !guard[k] {
+				missing = append(missing, k)
+			}
+		}
+		sort.Strings(missing)
+		n++
+		r.Check(len(missing) == 0, "siblings/java-serializer-conditions-agree", "java.typeFormatter."+pair[1]+" vs registration of "+pair[0], fd.Pos(), "the annotation is refused under every flag that keeps the class from being generated",
+			fmt.Sprintf("java.%s is registered under a condition on %v that %s does not look at: with builders and without generate_json_marshaller `string | bool` gives a class annotated @Json%s(using = StringOrBool%s.class) and no such class — javac: cannot find symbol", pair[0], missing, pair[1], strings.TrimSuffix(pair[0], "rs")+"", strings.TrimSuffix(pair[0], "s")))
+	}
+	r.Count("annotation / generation condition pairs of the Java jennies", n)
+	r.Floor("annotation / generation condition pairs of the Java jennies", 2)
+}
+
+// c02GoUnfoldLeafPointer: the Go builder template "unfold_builders" builds the elements of a list / map of builders
+// one by one and stores what Build() returns — a value — into a collection whose element type is the declared one
+// (`[]*Inner` for `[...(null | #Inner)]`). Every list of the template that calls Build() and then stores into the
+// result (append / index) hands the stored value to maybeAsPointer.
+func c02GoUnfoldLeafPointer(ctx *Ctx, r *Report) {
+	ts, err := loadTemplates(ctx, "golang")
+	if err != nil {
+		r.Undecided("templates of golang: %v", err)
+		return
+	}
+	tree := ts.trees["unfold_builders"]
+	if tree == nil {
+		r.Undecided("anchor lost: golang template \"unfold_builders\"")
+		return
+	}
+	n := 0
+	var visit func(l *parse.ListNode)
+	visit = func(l *parse.ListNode) {
+		if l == nil {
+			return
+		}
+		builds, stores, pointer := false, false, false
+		for _, c := range l.Nodes {
+			switch x := c.(type) {
+			case *parse.TextNode:
+				t := string(x.Text)
+				if strings.Contains(t, ".Build()") {
+					builds = true
+				}
+				if builds && (strings.Contains(t, "append(") || strings.Contains(t, "[key")) {
+					stores = true
+				}
+			case *parse.ActionNode:
+				if strings.Contains(x.String(), "maybeAsPointer") {
+					pointer = true
+				}
+			case *parse.IfNode:
+				visit(x.List)
+				visit(x.ElseList)
+			case *parse.RangeNode:
+				visit(x.List)
+				visit(x.ElseList)
+			case *parse.WithNode:
+				visit(x.List)
+				visit(x.ElseList)
+			}
+		}
+		if builds && stores {
+			n++
+			r.Check(pointer, "skeleton/go-unfold-leaf-pointer", fmt.Sprintf("golang unfold_builders leaf #%d", n), token.NoPos, ts.file["unfold_builders"]+": the built element goes through maybeAsPointer before it is stored",
+				ts.file["unfold_builders"]+": an element built from a builder is stored as the value Build() returned: for `items: [...(null | #Inner)]` the field is `[]*Inner` and the builder does `append(itemsResource, itemsDepth1)` with an Inner — the package does not type-check")
+		}
+	}
+	visit(tree.Root)
+	r.Count("leaves of the Go template that store a built element", n)
+	r.Floor("leaves of the Go template that store a built element", 2)
 }
